@@ -34,6 +34,9 @@ EXPLANATION = (
 
 
 def run(repo: Repo, rep: Report, tier: str) -> None:
+    from ..lints import decoder_loops_complete
+    rep.rule("decoder-complete", "every item loop of the codec hands on each item it frames or raises")
+    rep.floor("codec item loops", decoder_loops_complete(repo, rep, "decoder-complete", None), 6)
     rep.rule("containment", "_read_pdu_data: every failure queues exactly one Evt17/Evt19 and returns; type and length checks dominate decoding; decode is inside try/except Exception")
     rep.rule("escape", "no unhandled explicit raise on peer data reachable from an action (pre-validated under the Evt19 guard); DIMSE decoding guarded")
     rep.rule("termination", "decoder cursor loops advance by a positive amount on every path through the body")
